@@ -352,16 +352,7 @@ def handle (op : String) (f : List String) : Verdict :=
         | none => false
       if modelPanics && outcome.startsWith "panic" then ⟨.pass, tags0 ++ ["panic-modelled", "err"], ""⟩
       else if small && outcome.startsWith "panic" then ⟨.pass, tags0 ++ ["panic-small-tree", "err"], ""⟩
-      else
-        -- reported defect: Undo (Apply) of a rearrangement whose n1, n2 were separated by later edits
-        -- indexes Edges()[-1] instead of returning its error (missing `return` in tree/rearrange.go)
-        let sinceApply := (opl.dropLast.reverse.takeWhile fun o => opName o != "nniapply").map opName
-        let structural := sinceApply.any fun o =>
-          !(["sorttips", "rotate", "rotateone", "reroot", "rerootfirst", "reinit", "rename", "renameauto", "renameregex",
-             "addquotes", "rmquotes", "shuffle", "clearlengths", "clearsupports", "clearcomments", "scalelengths",
-             "roundlengths"].contains o)
-        let cls := if last == "nniundo" && structural && outcome.startsWith "panic" then "class=NniUndoStalePanic " else ""
-        ⟨.oracle, tags0 ++ ["crash"], cls ++ "operation " ++ last ++ " did not return: " ++ outcome⟩
+      else ⟨.oracle, tags0 ++ ["crash"], "operation " ++ last ++ " did not return: " ++ outcome⟩
     else
     -- clause 1 of the property, judged by the Spec on the raw pointer graph; the harness' own walker
     -- (`wf`) is kept as a cross-check: the two must agree
